@@ -492,6 +492,9 @@ func httpHeaders(h HTTPCase, now time.Time) http.Header {
 		out.Set("Cache-Control", "max-age=1")
 	case "maxage6":
 		out.Set("Cache-Control", "max-age=6")
+	case "maxage_aged":
+		out.Set("Cache-Control", "max-age=60")
+		out.Set("Age", "54")
 	case "nostore_maxage":
 		out.Set("Cache-Control", "no-store, max-age=60")
 	case "private_maxage":
